@@ -1240,6 +1240,39 @@ def fam_one_channel_tail(rng):
     return net
 
 
+def fam_memcpy_reshape(rng):
+    """a memory-only operator (RESHAPE) that cannot be bypassed because its input has further consumers: it becomes a copy
+    (DMA) between two feature maps; channel counts that are not multiples of 16, so the brick format (NHCWB16) of a
+    neighbour would change the byte size"""
+    net = Net("memcpy_reshape")
+    dt = rng.choice(["int8", "int8", "uint8"])
+    h, w = rng.choice([(6, 6), (4, 8), (8, 4), (5, 7), (2, 12)])
+    c = rng.choice([3, 10, 24, 17, 8, 16, 40])
+    x = _inp(net, rng, [1, h, w, rng.choice([4, 8])], dt)
+    t = conv2d(net, rng, x, c, (3, 3), (1, 1), (1, 1), "SAME", "NONE") if rng.random() < 0.8 else pool(net, rng, x, "MAX_POOL_2D", (1, 1), (1, 1), "VALID")
+    c = t.shape[-1]
+    outs = []
+    if rng.random() < 0.8:
+        outs.append(conv2d(net, rng, t, rng.choice([4, 8]), (rng.choice([1, 3]),) * 2, (1, 1), (1, 1), "SAME", "NONE"))
+    else:
+        outs.append(pool(net, rng, t, "MAX_POOL_2D", (2, 2), (1, 1), "SAME"))
+    shp = rng.choice([[1, w, h, c], [1, h * w, 1, c], [1, 1, h * w, c], [1, h, w * c // (c // 2 if c % 2 == 0 else c), (c // 2 if c % 2 == 0 else c)]])
+    t2 = reshape(net, rng, t, shp)
+    ch = rng.choice(["conv", "abs", "relu", "pool"])
+    if ch == "conv":
+        outs.append(conv2d(net, rng, t2, 4, (1, 1), (1, 1), (1, 1), "SAME", "NONE"))
+    elif ch == "abs":
+        outs.append(unary(net, rng, "ABS", t2, out_scale=t2.scale, out_zp=t2.zp))
+    elif ch == "relu":
+        outs.append(unary(net, rng, "RELU", t2))
+    else:
+        outs.append(pool(net, rng, t2, "MAX_POOL_2D", (1, 1), (1, 1), "VALID"))
+    if rng.random() < 0.5:
+        outs.reverse()
+    net.output(*outs)
+    return net
+
+
 def fam_deep_chain(rng, kind=None):
     """a long sequential chain of cheap operators (recursive graph traversals: about 3 Python frames per operator);
     kind = number of operators"""
@@ -1547,7 +1580,7 @@ def fam_multi_subgraph(rng, kind=None):
 
 FAMILIES = {
     "conv_chain": fam_conv_chain, "conv_chain_big": lambda rng: fam_conv_chain(rng, big=True), "single": fam_single_op,
-    "diamond": fam_diamond, "mixed_cpu": fam_mixed_cpu, "unsupported": fam_unsupported, "lut_heavy": fam_lut_heavy, "lut_mixed": fam_lut_mixed, "siamese": fam_siamese, "multi_input": fam_multi_input, "deep_chain": fam_deep_chain, "pow2_rescale": fam_pow2_rescale, "narrowing_chain": fam_narrowing_chain, "one_channel_tail": fam_one_channel_tail, "mixed_exact": fam_mixed_exact, "weights_heavy": fam_weights_heavy, "ew_dag": fam_ew_dag, "multi_custom": fam_multi_custom,
+    "diamond": fam_diamond, "mixed_cpu": fam_mixed_cpu, "unsupported": fam_unsupported, "lut_heavy": fam_lut_heavy, "lut_mixed": fam_lut_mixed, "siamese": fam_siamese, "multi_input": fam_multi_input, "deep_chain": fam_deep_chain, "pow2_rescale": fam_pow2_rescale, "narrowing_chain": fam_narrowing_chain, "one_channel_tail": fam_one_channel_tail, "memcpy_reshape": fam_memcpy_reshape, "mixed_exact": fam_mixed_exact, "weights_heavy": fam_weights_heavy, "ew_dag": fam_ew_dag, "multi_custom": fam_multi_custom,
 }
 FAMILIES["multi_subgraph"] = fam_multi_subgraph
 
